@@ -543,20 +543,21 @@ Definition py_dom (op : pybin) (a b : pyv) : Prop :=
   | Pow, PZ _, PZ y => (0 <= y)%Z
   | _, _, _ => True end.
 
-(* Operand regions where the unchanged /repo is KNOWN NOT to give Python's result; each is
-   shown necessary by a [_refuted] theorem in Props.v and listed in known_findings.json.
-   big_nat: a nat operand >= 2^63 that the operator implicitly coerces to int. *)
-Definition order_sensitive (op : pybin) : bool :=
-  match op with
-  | FloorDiv | Mod | Pow | RShift | Eq | NotEq | Lt | LtE | Gt | GtE => true | _ => false end.
+(* Operand regions where the unchanged /repo is KNOWN NOT to give Python's result; each
+   region is shown necessary by a [_refuted] theorem in Props.v and listed in
+   known_findings.json.  H64 <= nat operand: the operator implicitly coerces that nat to
+   int (nat.__int__ is a no-op, i.e. a reinterpretation). *)
+Definition known_bad_Z (op : pybin) (t1 t2 : gty) (x y : Z) : Prop :=
+  match op, t1, t2 with
+  | RShift, TInt, _ => (x < 0)%Z                                   (* ishr is a logical shift *)
+  | (FloorDiv | Mod), TInt, TInt => (y < 0)%Z                      (* idiv_s/imod_s read the divisor unsigned *)
+  | (FloorDiv | Mod), TNat, TInt => (y < 0 \/ H64 <= x)%Z
+  | Pow, TInt, TNat => (H64 <= y)%Z
+  | (Eq | NotEq | Lt | LtE | Gt | GtE), TNat, TInt => (H64 <= x)%Z
+  | (Eq | NotEq | Lt | LtE | Gt | GtE), TInt, TNat => (H64 <= y)%Z
+  | _, _, _ => False end.
 Definition known_bad (op : pybin) (t1 t2 : gty) (a b : pyv) : Prop :=
-  match a, b with
-  | PZ x, PZ y =>
-      (op = RShift /\ t1 = TInt /\ x < 0)%Z                                (* ishr is logical *)
-      \/ ((op = FloorDiv \/ op = Mod) /\ (t1 = TInt \/ t2 = TInt) /\ y < 0)%Z   (* divisor read unsigned *)
-      \/ (order_sensitive op = true /\ t1 = TNat /\ t2 = TInt /\ H64 <= x)%Z     (* nat -> int reinterprets *)
-      \/ (order_sensitive op = true /\ t1 = TInt /\ t2 = TNat /\ H64 <= y)%Z
-  | _, _ => False end.
+  match a, b with PZ x, PZ y => known_bad_Z op t1 t2 x y | _, _ => False end.
 
 Definition py_un (op : pyun) (a : pyv) : option pyv :=
   match op, a with
